@@ -37,6 +37,7 @@ type Case struct {
 	GraceMs int    `json:"grace_ms,omitempty"`
 	Family  string `json:"family,omitempty"`
 	Rounds  int    `json:"rounds,omitempty"`
+	Procs   int    `json:"procs,omitempty"` // GOMAXPROCS for this scenario (0 = leave as is)
 	Steps   []Step `json:"steps"`
 }
 
@@ -401,6 +402,89 @@ func (r *run) opAdmin(t int, st Step) func() {
 	}
 }
 
+// raceContext: the holder's goroutine releases the lock and ends the waiter's context back to
+// back (both on the same goroutine, so that under GOMAXPROCS(1) nothing runs in between), in either
+// order, with a skew of st.Us microseconds.
+func (r *run) raceContext(st Step) {
+	hd, wt := r.th[st.K], r.th[st.T]
+	r.mu.Lock()
+	hd.ph, hd.probed = phInUnlock, false
+	r.mu.Unlock()
+	k, md := hd.k, hd.md
+	spin := func() {
+		for t0 := time.Now(); time.Since(t0) < time.Duration(st.Us)*time.Microsecond; {
+		}
+	}
+	unlock := func() {
+		if md == "r" {
+			r.lc.RUnlock()
+		} else {
+			r.lc.Unlock()
+		}
+	}
+	r.hist["race."+st.Md]++
+	r.s.start(st.K, "", func() {
+		r.leave(k, md)
+		if st.Md == "cu" {
+			r.s.log("env e=cancel t=%d", st.T)
+			wt.cancel()
+			spin()
+			r.s.log("call t=%d op=unlock", st.K)
+			unlock()
+		} else {
+			r.s.log("call t=%d op=unlock", st.K)
+			r.s.log("env e=cancel t=%d", st.T) // logged before the cancellation really happens
+			unlock()
+			spin()
+			wt.cancel()
+		}
+		r.mu.Lock()
+		hd.ph = phIdle
+		r.mu.Unlock()
+		r.s.log("ret t=%d", st.K)
+	})
+}
+
+// contextFreeCheck (quiescent point, caller holds r.mu): when no caller holds lock.Context, nobody
+// may be parked waiting for it, and — after an acquisition reported an error — a fresh Lock must be
+// granted at once: an acquisition that reports an error holds nothing.
+func (r *run) contextFreeCheck(st []tStatus) {
+	holders, errSeen := 0, false
+	for _, th := range r.th {
+		if th.ph == phHolding || th.ph == phInUnlock {
+			holders++
+		}
+		if th.lockErr {
+			errSeen = true
+		}
+	}
+	if holders > 0 {
+		return
+	}
+	for t, th := range r.th {
+		if th.ph == phInLock && st[t] == stBlocked && th.ctx != nil && th.ctx.Err() == nil {
+			r.viol = append(r.viol, violation{"context-error-return-holds-lock", fmt.Sprintf("nobody holds the lock, yet caller %d is parked waiting for it (an earlier acquisition that reported an error kept the token or the RWMutex)", t)})
+			r.abort.Store(true)
+			return
+		}
+	}
+	if !errSeen {
+		return
+	}
+	for _, th := range r.th {
+		th.lockErr = false
+	}
+	ctx, cancel := context.WithTimeout(context.Background(), time.Second)
+	defer cancel()
+	if err := r.lc.Lock(ctx); err != nil {
+		r.viol = append(r.viol, violation{"context-error-return-holds-lock", "after an acquisition reported an error and with no holder, a fresh Lock(ctx, 1s) is not granted: " + err.Error()})
+		r.abort.Store(true)
+		return
+	}
+	r.lc.Unlock()
+	r.hist["free-check.passed"]++
+}
+
 // ---- one step + settle ----
 
 func (r *run) hookName(op string) string {
@@ -441,8 +525,16 @@ func (r *run) valid(st Step) bool {
 		return r.c.Prim == "context" && th.cancel != nil && th.ph == phInLock && th.ctx.Err() == nil
 	case "close":
 		return r.c.Prim == "outer" && !r.shutdown
-	case "race": // unlock writer K while cancelling waiting reader T
-		if r.c.Prim != "outer" || st.K < 0 || st.K >= r.c.N {
+	case "race": // unlock holder K while cancelling waiter T
+		if st.K < 0 || st.K >= r.c.N {
+			return false
+		}
+		if r.c.Prim == "context" {
+			hd := r.th[st.K]
+			return hd.ph == phHolding && !r.s.ws[st.K].busy.Load() &&
+				th.ph == phInLock && th.cancel != nil && th.ctx.Err() == nil
+		}
+		if r.c.Prim != "outer" {
 			return false
 		}
 		wr := r.th[st.K]
@@ -501,6 +593,10 @@ func (r *run) doStep(st Step) {
 		r.s.log("env e=cancel t=%d", st.T)
 		th.cancel()
 	case "race":
+		if r.c.Prim == "context" {
+			r.raceContext(st)
+			return
+		}
 		wr := r.th[st.K]
 		r.s.log("env e=cancel t=%d", st.T)
 		r.mu.Lock()
@@ -550,6 +646,7 @@ func (r *run) afterSettle(st []tStatus) {
 		r.outerObserve()
 	}
 	if r.c.Prim == "context" {
+		r.contextFreeCheck(st)
 		// a waiter whose context has ended stops waiting, whoever holds the lock in whatever mode
 		for t, th := range r.th {
 			if th.ph == phInLock && st[t] == stBlocked && th.ctx != nil && th.ctx.Err() != nil {
@@ -679,7 +776,7 @@ func (r *run) execute(next func(r *run) *Step) []string {
 		// an acquisition that reported an error holds nothing: the lock must still be acquirable
 		ctx, cancel := context.WithTimeout(context.Background(), time.Second)
 		if err := r.lc.Lock(ctx); err != nil {
-			r.violate("context-error-holds", "after every caller released or failed, Lock does not succeed within 1s: "+err.Error())
+			r.violate("context-error-return-holds-lock", "after every caller released or failed, Lock does not succeed within 1s: "+err.Error())
 		} else {
 			r.lc.Unlock()
 		}
